@@ -127,6 +127,24 @@ def _random(E):
     return [E.cubed.random.random((8, 3), chunks=(3, 2), **E.kw) + E.ar(3, (2,), "float64")]
 
 
+class XarrayLike:
+    """Stand-in for an xarray object (xarray is not installed): asarray() looks at the class' module name and `.data`;
+    cubed.utils.extract_array_names looks at `.variable._data`."""
+
+    def __init__(self, data):
+        import types
+        self.data = data
+        self.variable = types.SimpleNamespace(_data=data)
+
+
+XarrayLike.__module__ = "xarray.core.dataarray"
+
+
+def _asarray_xarray(E):
+    a = E.xp.asarray(XarrayLike(E.np.arange(6)), chunks=(4,), **E.kw)
+    return [a + E.xp.ones((6,), dtype=a.dtype, chunks=(4,), **E.kw), E.xp.asarray(XarrayLike(E.ar(5, (2,)))) * 2]
+
+
 def _qr(E):
     q, r = E.xp.linalg.qr(E.mat(8, 2, (4, 2)))
     return [E.xp.matmul(q, r)]
@@ -141,6 +159,7 @@ RECIPES = [
     # ---- creation functions (the spec argument is the configuration) -----------------------------------------
     ("asarray", "create", lambda E: [E.ar(7, (3,))], ["asarray"]),
     ("asarray_scalar", "create", lambda E: [E.xp.asarray(5, **E.kw) + E.ar(4, (2,))], ["asarray"]),
+    ("asarray_xarray_standin", "create", _asarray_xarray, ["asarray"]),
     ("arange", "create", lambda E: [E.xp.arange(2, 17, 3, chunks=(2,), **E.kw)], ["arange", "map_blocks"]),
     ("empty_ones_zeros_full", "create",
      lambda E: [E.xp.ones((5, 3), chunks=(2, 2), **E.kw) + E.xp.zeros((5, 3), chunks=(2, 2), **E.kw),
